@@ -280,6 +280,23 @@ pub fn dispatch(f: &[&str]) -> String {
                 }
             }
         }
+        // ---- C18: dependency listing
+        "deps" => {
+            // deps <search paths ;> <hex source> <filename>
+            use chialisp::compiler::compiler::DefaultCompilerOpts;
+            use chialisp::compiler::comptypes::CompilerOpts;
+            let paths: Vec<String> = f[1].split(';').filter(|s| !s.is_empty()).map(|s| s.to_string()).collect();
+            let text = String::from_utf8_lossy(&hex::decode(f[2]).unwrap()).to_string();
+            let fname = f[3];
+            let opts = Rc::new(DefaultCompilerOpts::new(fname)).set_search_paths(&paths);
+            match chialisp::compiler::preprocessor::gather_dependencies(opts, fname, &text) {
+                Ok(l) => format!(
+                    "OK {}",
+                    l.iter().map(|d| hex::encode(&d.name)).collect::<Vec<_>>().join(",")
+                ),
+                Err(e) => format!("ERR {} {}", e.0, e.1.replace(['\n', '\t'], " ")),
+            }
+        }
         other => format!("BADOP {}", other),
     }
 }
